@@ -279,3 +279,89 @@ def split_root_and_drop_rules(ctx):
         for p in rc:
             ctx.flows(f, p, 1, from_arg='child_index')
             ctx.flows(f, p, 2, from_arg='new_child')
+
+
+def _slice_has_arith(f, operand, depth=0):
+    """does the value of `operand` -- followed through copies, casts, `?`/unwrap-style calls,
+    aggregates (ranges) and the iterator chain of a `for` loop -- pass through an integer add or
+    subtract?  (Symbolic terms only: no whole-function slice.)"""
+    s = core.sym(f)
+    ARITH = ('Add', 'Sub')
+    seen = set()
+
+    def walk(t, d):
+        if d > 14 or t is None or id(t) in seen:
+            return False
+        if not isinstance(t, tuple) or not t:
+            return False
+        k = t[0]
+        if k == 'cmp':
+            if str(t[1]).startswith(ARITH):
+                return True
+            return any(walk(x, d + 1) for x in t[2:] if isinstance(x, tuple))
+        if k == 'place':
+            return walk(t[1], d + 1)
+        if k == 'agg' and len(t) >= 5:
+            st = f.blocks[t[3]]['s'][t[4]]
+            return any(o[0] != 'k' and walk(s.operand(o), d + 1) for o in st[2].get('o', []))
+        if k == 'call':
+            cs = core.CallSite(f, t[1], f.blocks[t[1]]['t'])
+            nm = (cs.declared or cs.callee or '').split('::')[-1]
+            if nm in ('next', 'next_back', 'into_iter', 'rev', 'unwrap', 'try_into', 'into', 'from', 'expect', 'clone') and cs.t['a']:
+                return any(a[0] != 'k' and walk(s.operand(a), d + 1) for a in cs.t['a'][:1])
+            return False
+        if k in ('cast', 'un'):
+            return any(walk(x, d + 1) for x in t[1:] if isinstance(x, tuple))
+        return False
+
+    if operand[0] == 'k':
+        return False
+    return walk(s.operand(operand), 0)
+
+
+def round7_rules(ctx):
+    # --- shrink: the regions dropped from the tracker are the regions dropped from the list
+    ctx.set_rule('C14.R3', 'a region is marked full only on evidence')
+    f = ctx.fn('Allocators::resize_to')
+    if f is not None:
+        mfull = ctx.sites(f, 'RegionTracker::mark_full', exact=1)
+        dr = ctx.sites(f, 'Vec::drain', exact=1)
+        for p in mfull:
+            bad = _slice_has_arith(f, p.call.t['a'][2])
+            ctx._ob(not bad, ctx.sample('flow', f, p.line, 'the first region marked full is new_layout.num_regions() itself'))
+            if bad:
+                ctx.violate('flow|%s|mark-full-offset' % f.path, 'the index range of regions marked full is offset from new_layout.num_regions(): a surviving region would be reported full (or a removed one left marked free)', f, p.line)
+        for p in dr:
+            ctx.flows(f, p, 1, from_call='DatabaseLayout::num_regions', what='the allocators drained are those from new_layout.num_regions() on')
+            bad = _slice_has_arith(f, p.call.t['a'][1])
+            ctx._ob(not bad, ctx.sample('flow', f, p.line, 'the first allocator drained is new_layout.num_regions() itself'))
+            if bad:
+                ctx.violate('flow|%s|drain-offset' % f.path, 'the range of region allocators dropped on shrink is offset from new_layout.num_regions()', f, p.line)
+        ctx.order(f, mfull, dr, 'removed regions are marked full before their allocators are dropped') if False else None
+    # --- a second restore in one transaction replaces the rollback point
+    ctx.set_rule('C07.R15', 'every restore sets the rollback point to the savepoint just restored: it is never merged upwards with an earlier one')
+    f = ctx.fn(S.WT + '::restore_savepoint_inner')
+    if f is not None:
+        pts = S._field_store_points(f, 'restored_transaction')
+        ok_ = len(pts) == 1
+        ctx._ob(ok_, ctx.sample('stores', f, f.line, 'restored_transaction is stored once'))
+        if not ok_:
+            ctx.violate('floor|%s|restored_transaction' % f.path, 'expected one store of restored_transaction, found %d' % len(pts), f, f.line)
+        for p, st in pts:
+            ops = S._rv_operands(st[2])
+            src = any(o[0] != 'k' and core.flows_from_call(f, o, 'Savepoint::get_transaction_id') for o in ops)
+            ctx._ob(src, ctx.sample('flow', f, p.line, 'the rollback point is the restored savepoint\'s transaction'))
+            if not src:
+                ctx.violate('flow|%s|restored-id' % f.path, 'restored_transaction does not derive from the restored savepoint\'s transaction id', f, p.line)
+            mx = False
+            for o in ops:
+                if o[0] == 'k':
+                    continue
+                _l, calls, _a, _k = core.flow_sources(f, o)
+                for bb in calls:
+                    cs = core.CallSite(f, bb, f.blocks[bb]['t'])
+                    if cs.matches(('Ord::max', 'cmp::max', 'Iterator::max')):
+                        mx = True
+            ctx._ob(not mx, ctx.sample('flow', f, p.line, 'the rollback point is not the maximum of the old and the new one'))
+            if mx:
+                ctx.violate('flow|%s|restored-max' % f.path, 'the rollback point is merged with the previous one by max(): after restoring a newer and then an older savepoint in one transaction, the freed-page records of the commits between them would survive the restore', f, p.line)
